@@ -28,5 +28,8 @@ VDictTable ==
   {[app |-> VApp, code |-> 9000 + i, vendor |-> 0, name |-> "V-" \o VTypeNames[i], kind |-> VKinds[i], must |-> "M"] : i \in 1..Len(VKinds)}
   \cup {[app |-> VApp, code |-> 9100 + i, vendor |-> VVendor, name |-> "VV-" \o VTypeNames[i], kind |-> VKinds[i], must |-> "M,V"] : i \in 1..Len(VKinds)}
   \cup {[app |-> VApp, code |-> VGroup2, vendor |-> 0, name |-> "V-Grouped2", kind |-> "grouped", must |-> "M"],
-        [app |-> VApp, code |-> VVGroup2, vendor |-> VVendor, name |-> "VV-Grouped2", kind |-> "grouped", must |-> "M,V"]}
+        [app |-> VApp, code |-> VVGroup2, vendor |-> VVendor, name |-> "VV-Grouped2", kind |-> "grouped", must |-> "M,V"],
+        \* definitions whose flag rule text and vendor id disagree: the V flag follows the vendor id
+        [app |-> VApp, code |-> 9201, vendor |-> VVendor, name |-> "VW-Unsigned32", kind |-> "u32", must |-> "M"],
+        [app |-> VApp, code |-> 9202, vendor |-> 0, name |-> "VX-OctetString", kind |-> "octets", must |-> "M,V"]}
 =============================================================================
